@@ -60,8 +60,8 @@ type Pred struct {
 }
 
 func Leaf(col, cmp string, v Val) *Pred { return &Pred{Col: col, Cmp: cmp, V: &v} }
-func And(l, r *Pred) *Pred             { return &Pred{Op: "and", L: l, R: r} }
-func Or(l, r *Pred) *Pred              { return &Pred{Op: "or", L: l, R: r} }
+func And(l, r *Pred) *Pred              { return &Pred{Op: "and", L: l, R: r} }
+func Or(l, r *Pred) *Pred               { return &Pred{Op: "or", L: l, R: r} }
 
 func (p *Pred) IsLeaf() bool { return p.Op == "" }
 
